@@ -57,7 +57,7 @@ def rule_tables(repo: Repo) -> RuleResult:
     return r
 
 
-# --------------------------------------------------------------------------- isinstance dispatch arms
+# --------------------------------------------------------------------------- syntactic isinstance arms (used by C08)
 class Arm:
     def __init__(self, classes: List[str], body: List[ast.stmt], test: Optional[ast.AST], node: Optional[ast.AST]):
         self.classes = classes
@@ -113,331 +113,563 @@ def shadowed(repo: Repo, arms: List[Arm], arm: Arm) -> bool:
     return True
 
 
-def rule_translate(repo: Repo, rid: str = "C02.translate") -> RuleResult:
-    r = RuleResult(rid, "each operand class of the data model is translated by an arm that attaches its result to the grounded condition, or is rejected",
-                   "literals, numeric conditions, nested and quantified conditions all take part in the instantiated precondition")
-    dead_universal = universal_path_dead(repo)
-    for spec in ("GroundedPrecondition._ground", "GroundedPrecondition._ground_universal_condition"):
-        f = repo.func(spec)
-        latent = dead_universal and spec.endswith("_ground_universal_condition")
-        p = L.prov(repo, f)
-        loops = [n for n in ast.walk(f.node) if isinstance(n, ast.For) and isinstance(n.target, ast.Name)
-                 and any("attr:operands" in x for x in p.trace(n.iter))]
-        if len(loops) != 1:
-            raise AnalysisError(f"{spec}: loop over the lifted operands not found")
-        loop = loops[0]
-        var = loop.target.id
-        arms, else_arm = isinstance_arms(loop.body, var)
-        if not arms:
-            raise AnalysisError(f"{spec}: isinstance dispatch on the operand not recognised")
-        # the output condition: a parameter that receives add_condition, or a local Precondition that is returned
-        outputs: Set[str] = set()
-        for c in L.calls_in(f.node):
-            if callee_name(c) == "add_condition" and isinstance(c.func, ast.Attribute):
-                for x in p.trace(c.func.value):
-                    if x[0].startswith("param:") and len(x) == 1:
-                        outputs.add(x[0])
-                    if x[0] == "fresh:Precondition":
-                        outputs.add(x[0])
-        if not outputs:
-            raise AnalysisError(f"{spec}: output condition (receiver of add_condition) not recognised")
 
-        def attaches(body: List[ast.stmt]) -> bool:
-            for s in C.stmts_in(body):
-                hdr = C.header(s)
+# --------------------------------------------------------------------------- anchors and class valuations
+EVAL = "GroundedPrecondition.is_applicable"            # the evaluator with its private helpers in place
+GROUND = "GroundedPrecondition.ground_preconditions"   # the translation lifted -> grounded condition
+EVAL_CLASSES = ["GroundedPredicate", "NumericalExpressionTree", "Precondition", "UniversalPrecondition"]
+
+
+def _operand_loops(f: FuncInfo, p) -> List[ast.For]:
+    return [n for n in ast.walk(f.node) if isinstance(n, ast.For) and any(x and x[-1] == "attr:operands" for x in p.trace(n.iter))]
+
+
+def _classes_of(repo: Repo, f: FuncInfo, e: ast.AST) -> Optional[List[str]]:
+    """class names of the second argument of isinstance (a name, a tuple, or a module constant holding a tuple)"""
+    if isinstance(e, ast.Name):
+        if e.id in repo.classes:
+            return [e.id]
+        node = repo.const_node(f.mod.name, e.id)
+        if node is not None and isinstance(node, (ast.Tuple, ast.List)):
+            return [x.id for x in node.elts if isinstance(x, ast.Name)]
+        return [e.id]
+    if isinstance(e, ast.Attribute):
+        return [e.attr]
+    if isinstance(e, (ast.Tuple, ast.List)):
+        out = []
+        for x in e.elts:
+            out += _classes_of(repo, f, x) or []
+        return out
+    return None
+
+
+class ClassDispatch:
+    """isinstance tests on the element of one loop, decided together for a given class of the element (class valuation):
+    whatever shape the dispatch has (if/elif chain, separate ifs, a helper function, a tuple-of-types pre-test), the statements
+    executed for an element of class K are the nodes reachable when every test isinstance(elem, C) has the value `C in mro(K)`."""
+
+    def __init__(self, repo: Repo, f: FuncInfo, p, loop: ast.For):
+        self.repo, self.f, self.p, self.loop = repo, f, p, loop
+        elem = {x + ("elem",) for x in p.trace(loop.iter)}
+        self.tests: Dict[int, List[str]] = {}
+        for n in ast.walk(loop):
+            if isinstance(n, ast.Call) and isinstance(n.func, ast.Name) and n.func.id == "isinstance" and len(n.args) == 2:
+                try:
+                    tr = p.trace(n.args[0])
+                except KeyError:
+                    continue
+                if tr and tr <= elem:
+                    cs = _classes_of(repo, f, n.args[1])
+                    if cs:
+                        self.tests[id(n)] = cs
+        self.G = L.Guards(f, lambda e: f"isa{id(e)}" if id(e) in self.tests else None)
+        self.g = self.G.g
+        self.inside = {self.g.node_containing(x) if not isinstance(x, ast.stmt) else self.g.node_of(x) for x in ast.walk(loop) if isinstance(x, ast.stmt)}
+        self.inside.discard(None)
+
+    def valuation(self, cls: str) -> Dict[str, bool]:
+        mro = self.repo.mro(cls)
+        return {f"isa{i}": any(c in mro for c in cs) for i, cs in self.tests.items()}
+
+    def reach(self, cls: str) -> Set[int]:
+        """nodes of the loop body executed for an element of class `cls`"""
+        return self.G.reach(self.valuation(cls)) & self.inside
+
+    def under(self, cls: str, extra: Optional[Dict[str, bool]] = None):
+        v = self.valuation(cls)
+        v.update(extra or {})
+        return self.G.under(v)
+
+    def matches_any(self, cls: str) -> bool:
+        return any(self.valuation(cls).values())
+
+
+def _inner_loops(loop: ast.For) -> List[ast.For]:
+    return [n for n in ast.walk(loop) if isinstance(n, ast.For) and n is not loop]
+
+
+def rule_translate(repo: Repo, rid: str = "C02.translate") -> RuleResult:
+    r = RuleResult(rid, "each operand class of the data model is translated into the grounded condition (attached with add_condition) or is rejected",
+                   "literals, numeric conditions, nested and quantified conditions all take part in the instantiated precondition")
+    for spec, tag in ((GROUND, ""), (EVAL, "forall-")):
+        f = L.fn(repo, spec)
+        p = L.prov(repo, f)
+        g = C.cfg_of(f.node)
+        loops = [lp for lp in _operand_loops(f, p) if any(callee_name(c) == "add_condition" for c in L.calls_in(lp))]
+        # the innermost translation loops only
+        loops = [lp for lp in loops if not any(x in loops for x in _inner_loops(lp))]
+        if len(loops) != 1:
+            raise AnalysisError(f"{spec}: the loop that translates the lifted operands (add_condition inside a loop over .operands) was not found "
+                                f"({len(loops)} candidates)")
+        loop = loops[0]
+        D = ClassDispatch(repo, f, p, loop)
+        if not D.tests:
+            raise AnalysisError(f"{spec}: isinstance dispatch on the operand not recognised")
+        elem = {x + ("elem",) for x in p.trace(loop.iter)}
+        latent = False
+        if tag:
+            # is the forall translation reachable at all from the evaluator's own dispatch?
+            outer = [lp for lp in _operand_loops(f, p) if any(x is loop for x in ast.walk(lp)) and lp is not loop]
+            if outer:
+                OD = ClassDispatch(repo, f, p, outer[0])
+                head = g.node_of(loop)
+                latent = not any(head in OD.G.reach(OD.valuation(k)) for k in EVAL_CLASSES)
+        for cls in MODEL_CLASSES:
+            r.site(f"{f.qn} [{tag}{cls}]")
+            seen = D.reach(cls)
+            attach = reject = False
+            for n in seen:
+                st = g.stmt[n]
+                if g.kind[n] == "raise":
+                    reject = True
+                hdr = C.header(st) if st is not None else None
                 if hdr is None:
                     continue
                 for c in L.calls_in(hdr):
                     if callee_name(c) == "add_condition" and isinstance(c.func, ast.Attribute) and c.args:
-                        recv = p.trace(c.func.value)
-                        arg = p.trace(c.args[0])
-                        to_out = any(x[0] in outputs and len(x) == 1 for x in recv)
-                        from_operand = any("elem" in x or any(st.startswith("arg") for st in x) for x in arg)
+                        recv, arg = p.trace(c.func.value), p.trace(c.args[0])
+                        to_out = bool(recv) and not any(x[:len(e)] == e for x in recv for e in elem)
+                        from_operand = any(any(x[:len(e)] == e for e in elem) for x in arg)
                         if to_out and from_operand:
-                            return True
-            return False
-
-        def rejects(body: List[ast.stmt]) -> bool:
-            ss = list(C.stmts_in(body))
-            return bool(ss) and any(isinstance(s, ast.Raise) for s in ss)
-
-        for cls in MODEL_CLASSES:
-            r.site(f"{f.qn} [{cls}]")
-            arm = first_matching_arm(repo, arms, cls)
-            if arm is None:
-                if else_arm is not None and rejects(else_arm.body):
-                    r.ok({"function": f.qn, "class": cls, "arm": "else -> raise"})
-                elif else_arm is not None and attaches(else_arm.body):
-                    r.ok({"function": f.qn, "class": cls, "arm": "else -> attach"})
-                else:
-                    r.fail(Finding(rid, f, f"arm:else:{cls}", f"an operand of class {cls} matches no arm and there is no rejecting else: it is silently left out "
-                                   f"of the grounded condition", node=loop, latent=latent),
-                           {"function": f.qn, "class": cls, "arm": None})
-                continue
-            if attaches(arm.body) or rejects(arm.body):
-                r.ok({"function": f.qn, "class": cls, "arm": "/".join(arm.classes), "attached_or_rejected": True})
+                            attach = True
+            sample = {"function": f.qn, "class": cls, "attached": attach, "rejected": reject}
+            if attach or reject:
+                r.ok(sample)
+            elif D.matches_any(cls):
+                r.fail(Finding(rid, f, f"{tag}arm:{cls}", f"an operand of class {cls} is handled by the dispatch but no translated condition is attached to the "
+                               f"grounded condition (no add_condition on the output) and nothing is raised: the condition is ignored", node=loop, latent=latent), sample)
             else:
-                r.fail(Finding(rid, f, f"arm:{cls}", f"the arm isinstance({var}, {'/'.join(arm.classes)}) handles operands of class {cls} but never attaches a "
-                               f"translated condition to the output (no add_condition on {sorted(outputs)}) and does not raise: the condition is ignored",
-                               node=arm.node, latent=latent), {"function": f.qn, "class": cls, "arm": "/".join(arm.classes)})
+                r.fail(Finding(rid, f, f"{tag}arm:else:{cls}", f"an operand of class {cls} matches no arm and there is no rejecting else: it is silently left out "
+                               f"of the grounded condition", node=loop, latent=latent), sample)
     r.require_sites(8)
     return r
 
 
-def universal_path_dead(repo: Repo) -> bool:
-    """is the evaluator arm that handles UniversalPrecondition shadowed by an earlier superclass arm (dead code today)?"""
-    f = repo.func_opt("GroundedPrecondition._is_condition_applicable")
-    if f is None:
+# --------------------------------------------------------------------------- the evaluator's folds
+class Fold:
+    def __init__(self, stmt: ast.Assign, acc: str, call: ast.Call):
+        self.stmt, self.acc, self.call = stmt, acc, call
+
+
+def _is_table_call(p, call: ast.Call) -> bool:
+    """BinaryOperator[k](a, b), also through a local alias `combine = BinaryOperator[k]`"""
+    try:
+        tr = p.trace(call.func)
+    except KeyError:
         return False
+    return bool(tr) and all(x[0] == "global:BinaryOperator" and x[1:] in (("item",), ("call:get",), ("call:__getitem__",)) for x in tr if "askey" not in x)
+
+
+def _table_key(p, call: ast.Call):
+    """provenance of the key the operator table is indexed with"""
+    return {x[:-1] for x in p.trace(call.func, keys=True) if x and x[-1] == "askey"} | \
+           {x[:-2] for x in p.trace(call.func, keys=True) if len(x) > 1 and x[-2].startswith("arg0:")}
+
+
+def _evaluation_loops(repo: Repo, f: FuncInfo, p):
+    """[(loop, accumulator name, [folds], context)]: loops over .operands that fold into an accumulator"""
+    pm = L.parents_of(f)
+    ops = _operand_loops(f, p)
+    out = []
+    for lp in ops:
+        folds = []
+        for n in ast.walk(lp):
+            if isinstance(n, ast.Assign) and len(n.targets) == 1 and isinstance(n.targets[0], ast.Name) and isinstance(n.value, ast.Call) \
+                    and len(n.value.args) == 2 and _is_table_call(p, n.value):
+                # nearest enclosing operand loop must be lp
+                cur, near = n, None
+                while cur in pm:
+                    cur = pm[cur]
+                    if cur in ops:
+                        near = cur
+                        break
+                if near is lp and isinstance(n.value.args[0], ast.Name) and n.value.args[0].id == n.targets[0].id:
+                    folds.append(Fold(n, n.targets[0].id, n.value))
+        if folds:
+            accs = {x.acc for x in folds}
+            if len(accs) != 1:
+                raise AnalysisError(f"{f.qn}: several accumulators {sorted(accs)} in one evaluation loop")
+            ctx = "forall" if any(isinstance(x, ast.For) and any("problem_objects" in s_ for t in p.trace(x.iter) for s_ in t) for x in _anc(pm, lp)) else "compound"
+            out.append((lp, accs.pop(), folds, ctx))
+    return out
+
+
+def _anc(pm, n):
+    cur = n
+    while cur in pm:
+        cur = pm[cur]
+        yield cur
+
+
+def _evaluator(repo: Repo):
+    f = L.fn(repo, EVAL)
     p = L.prov(repo, f)
-    loops = [n for n in ast.walk(f.node) if isinstance(n, ast.For) and isinstance(n.target, ast.Name) and any("attr:operands" in x for x in p.trace(n.iter))]
-    if len(loops) != 1:
-        return False
-    arms, _ = isinstance_arms(loops[0].body, loops[0].target.id)
-    for a in arms:
-        if "UniversalPrecondition" in a.classes:
-            return shadowed(repo, arms, a)
-    return True
+    loops = _evaluation_loops(repo, f, p)
+    if not any(ctx == "compound" for _l, _a, _f, ctx in loops):
+        raise AnalysisError(f"{EVAL}: accumulator fold over the operands (acc = BinaryOperator[op](acc, value)) not recognised")
+    return f, p, loops
 
 
 def rule_literal(repo: Repo) -> RuleResult:
     r = RuleResult("C02.literal", "a positive literal holds iff its ground text is in the state, a negative one iff the positive text is not",
                    "positive and negative literals by (non-)membership")
-    f = repo.func("GroundedPrecondition._validate_predicates_hold")
-    p = L.prov(repo, f)
-    tcalls = [c for c in L.calls_in(f.node) if isinstance(c.func, ast.Subscript) and any(x[0] == "global:BinaryOperator" for x in p.trace(c.func.value))]
-    if not tcalls:
-        raise AnalysisError("_validate_predicates_hold: fold through BinaryOperator not found")
-    call = tcalls[0]
-    if len(call.args) != 2:
-        raise AnalysisError("_validate_predicates_hold: BinaryOperator call with two arguments expected")
-    lit = call.args[1]
-    state_params = [x for x in f.params if x == "state"]
-    if not state_params:
-        raise AnalysisError("_validate_predicates_hold: parameter 'state' not found")
+    f, p, loops = _evaluator(repo)
+    g = C.cfg_of(f.node)
+    if "state" not in f.params:
+        raise AnalysisError(f"{EVAL}: parameter 'state' not found")
     members: Dict[int, Tuple[str, ast.AST]] = {}
 
-    def matcher(e):
-        if isinstance(e, ast.Attribute) and e.attr == "is_positive":
+    def lit_matcher(e):
+        if isinstance(e, ast.Attribute) and e.attr == "is_positive" and isinstance(e.ctx, ast.Load):
             return "pos"
         if isinstance(e, ast.Compare) and len(e.ops) == 1 and isinstance(e.ops[0], (ast.In, ast.NotIn)):
-            rhs = p.trace(e.comparators[0], p.node_of(call))
+            try:
+                rhs = p.trace(e.comparators[0])
+            except KeyError:
+                return None
             if any(x[0] == "param:state" for x in rhs):
                 members[id(e)] = ("in" if isinstance(e.ops[0], ast.In) else "not in", e)
                 return "member" if isinstance(e.ops[0], ast.In) else "!member"
         return None
 
-    r.site(f.qn + " [truth value]")
-    table = {}
-    bad = []
-    for pos, mem in itertools.product([False, True], repeat=2):
-        def val(e, pos=pos, mem=mem):
-            a = matcher(e)
-            if a == "pos":
-                return pos
-            if a == "member":
-                return mem
-            if a == "!member":
-                return not mem
-            return None
-        v = C.eval3(lit, val)
-        table[f"is_positive={pos},fact_in_state={mem}"] = v
-        if v is not (mem if pos else (not mem)):
-            bad.append((pos, mem, v))
-    if bad:
-        r.fail(Finding("C02.literal", f, "literal-truth", f"literal value differs from (is_positive ? member : not member): {table}", node=lit), table)
-    else:
-        r.ok(table)
-    # which texts are tested
-    r.site(f.qn + " [tested text]")
-    okpos = okneg = False
-    forced = set()
-    for n in ast.walk(f.node):
-        if isinstance(n, ast.Assign) and any(isinstance(t, ast.Attribute) and t.attr == "is_positive" for t in n.targets) and \
-                isinstance(n.value, ast.Constant) and n.value.value is True:
-            for t in n.targets:
-                if isinstance(t.value, ast.Name):
-                    forced.add(t.value.id)
-    for kind, e in members.values():
-        left = p.trace(e.left, p.node_of(call))
-        if kind == "in":
-            okpos = any(x == ("param:condition", "attr:untyped_representation") for x in left)
+    done = False
+    for loop, acc, folds, ctx in loops:
+        if ctx != "compound":
+            continue
+        D = ClassDispatch(repo, f, p, loop)
+        both = lambda e, D=D: (f"isa{id(e)}" if id(e) in D.tests else lit_matcher(e))
+        G = L.Guards(f, both)
+        cv = D.valuation("GroundedPredicate")
+        # the literal's value: second argument of the innermost table call executed for a GroundedPredicate operand
+        seen0 = G.reach(cv)
+        cands = [c for c in L.calls_in(loop) if len(c.args) == 2 and _is_table_call(p, c) and g.node_containing(c) in seen0]
+        inner = []
+        for c in cands:
+            v = G.value(cv, c.args[1], seen0)
+            if not (isinstance(v, ast.Call) and _is_table_call(p, v)):
+                inner.append(c)
+        if len(inner) != 1:
+            raise AnalysisError(f"{EVAL}: the fold of a literal's truth value was not recognised ({len(inner)} candidates)")
+        call = inner[0]
+        lit = call.args[1]
+        r.site(f.qn + " [truth value]")
+        table, bad = {}, []
+        for pos, mem in itertools.product([False, True], repeat=2):
+            val = dict(cv)
+            val.update({"pos": pos, "member": mem})
+            v = G.value(val, lit)
+            table[f"is_positive={pos},fact_in_state={mem}"] = v if isinstance(v, bool) else None
+            if v is not (mem if pos else (not mem)):
+                bad.append((pos, mem, v if isinstance(v, bool) else "undecided"))
+        if bad and all(v is None for v in table.values()):
+            raise AnalysisError(f"{EVAL}: the truth value of a literal ({unparse(lit, 60)}) is not built from is_positive / membership tests that the analysis can read")
+        if bad:
+            r.fail(Finding("C02.literal", f, "literal-truth", f"literal value differs from (is_positive ? member : not member): {table}", node=lit), table)
         else:
-            okneg = any("call:copy" in x and x[-1] == "attr:untyped_representation" for x in left) and \
-                isinstance(e.left, ast.Attribute) and isinstance(e.left.value, ast.Name) and e.left.value.id in forced
-    if okpos and okneg:
-        r.ok({"positive_branch_tests": "condition.untyped_representation", "negative_branch_tests": "text of the copy forced to is_positive=True"})
-    else:
-        r.fail(Finding("C02.literal", f, "literal-text", f"tested texts: positive branch ok={okpos}, negative branch tests the positive text={okneg}"))
-    # the operator of the fold is the enclosing node's operator and the accumulator is the incoming one
-    r.site(f.qn + " [fold]")
-    key = p.trace(call.func.slice)
-    acc = p.trace(call.args[0])
-    if any(x == ("param:preconditions", "attr:binary_operator") for x in key) and all(x == ("param:prev_is_applicable",) for x in acc):
-        r.ok({"fold": "BinaryOperator[preconditions.binary_operator](prev_is_applicable, literal)"})
-    else:
-        r.fail(Finding("C02.literal", f, "literal-fold", f"fold uses operator {sorted(key)[:2]} and accumulator {sorted(acc)[:2]}"))
+            r.ok(table)
+        # which texts are tested
+        r.site(f.qn + " [tested text]")
+        elem = {x + ("elem",) for x in p.trace(loop.iter)}
+        okpos = okneg = False
+        forced = []
+        for n in ast.walk(f.node):
+            if isinstance(n, ast.Assign) and any(isinstance(t, ast.Attribute) and t.attr == "is_positive" for t in n.targets) and \
+                    isinstance(n.value, ast.Constant) and n.value.value is True:
+                for t in n.targets:
+                    forced.append(frozenset(p.trace(t.value)))
+        live = {"in": set(), "not in": set()}
+        for pos in (False, True):
+            val = dict(cv)
+            val["pos"] = pos
+            sn = G.reach(val)
+            for kind, e in members.values():
+                if G.reaches_expr(val, e, seen=sn) and any(e is x for x in ast.walk(loop)):
+                    live[kind].add(id(e))
+        for kind, e in members.values():
+            if id(e) not in live[kind]:
+                continue
+            left = p.trace(e.left)
+            recv = {x[:-1] for x in left if x and x[-1] == "attr:untyped_representation"}
+            if kind == "in":
+                okpos = bool(recv) and recv <= elem
+            else:
+                okneg = bool(recv) and all("call:copy" in x for x in recv) and any(frozenset(recv) == fz for fz in forced)
+        if not live["in"] and not live["not in"]:
+            raise AnalysisError(f"{EVAL}: no membership test on the state is visible for a literal operand")
+        if okpos and okneg:
+            r.ok({"positive_branch_tests": "operand.untyped_representation", "negative_branch_tests": "text of the copy forced to is_positive=True"})
+        else:
+            r.fail(Finding("C02.literal", f, "literal-text", f"tested texts: positive branch ok={okpos}, negative branch tests the positive text={okneg}"))
+        # the operator of the fold is the enclosing node's operator and the accumulator is the incoming one
+        r.site(f.qn + " [fold]")
+        key = _table_key(p, call)
+        node_src = {x[:-1] for x in p.trace(loop.iter) if x[-1] == "attr:operands"}
+        acc_tr = p.trace(call.args[0])
+        acc_ok = bool(acc_tr) and all(any(s_.startswith("arg") or s_ in ("call:all",) or s_.startswith("const:") or True for s_ in x) for x in acc_tr)
+        acc_def = _resolves_to(p, g, call.args[0], acc)
+        if key and all(x[-1] == "attr:binary_operator" and x[:-1] in node_src for x in key) and acc_def:
+            r.ok({"fold": "BinaryOperator[<this node>.binary_operator](<accumulator>, literal)"})
+        else:
+            r.fail(Finding("C02.literal", f, "literal-fold", f"fold uses operator {sorted(key)[:2]} and accumulator {unparse(call.args[0])}"))
+        done = True
+        break
+    if not done:
+        raise AnalysisError(f"{EVAL}: compound evaluation loop not found")
     r.require_sites(3)
     return r
 
 
-def _fold_sites(repo: Repo, f: FuncInfo):
-    """assignments acc = BinaryOperator[...](acc, x)"""
-    p = L.prov(repo, f)
-    out = []
-    for n in ast.walk(f.node):
-        if isinstance(n, ast.Assign) and len(n.targets) == 1 and isinstance(n.targets[0], ast.Name) and isinstance(n.value, ast.Call) \
-                and isinstance(n.value.func, ast.Subscript):
-            if any(x[0] == "global:BinaryOperator" for x in p.trace(n.value.func.value)):
-                acc = n.targets[0].id
-                if n.value.args and isinstance(n.value.args[0], ast.Name) and n.value.args[0].id == acc:
-                    out.append((n, acc))
-    return out
+def _resolves_to(p, g, e: ast.AST, name: str, depth: int = 0) -> bool:
+    """the expression is the variable `name` or a chain of plain copies of it"""
+    if not isinstance(e, ast.Name) or depth > 6:
+        return False
+    if e.id == name:
+        return True
+    try:
+        at = p.node_of(e)
+    except KeyError:
+        return False
+    defs = p.rd.defs_reaching(at, e.id)
+    if not defs:
+        return False
+    for d in defs:
+        st = g.stmt[d] if d != g.entry else None
+        if not (isinstance(st, (ast.Assign, ast.AnnAssign)) and st.value is not None and _resolves_to(p, g, st.value, name, depth + 1)):
+            return False
+    return True
 
 
 def rule_foldid(repo: Repo) -> RuleResult:
     r = RuleResult("C02.foldid", "a fold whose operator is chosen at run time from {and, or} starts from that operator's identity",
                    "or is true only if some disjunct is; an empty and is true")
-    for spec in ("GroundedPrecondition._is_condition_applicable", "GroundedPrecondition._validate_universal_precondition"):
-        f = repo.func(spec)
-        p = L.prov(repo, f)
-        g = C.cfg_of(f.node)
-        folds = _fold_sites(repo, f)
-        if not folds:
-            raise AnalysisError(f"{spec}: accumulator fold not recognised")
-        latent = spec.endswith("_validate_universal_precondition") and universal_path_dead(repo)
-        acc = folds[0][1]
-        r.site(f"{f.qn} [initial value of {acc}]")
-        # operator dynamic?
-        keyp = p.trace(folds[0][0].value.func.slice)
+    f, p, loops = _evaluator(repo)
+    g = C.cfg_of(f.node)
+    dead_forall = _forall_dead(repo, f, p, loops)
+    for loop, acc, folds, ctx in loops:
+        r.site(f"{f.qn} [{ctx}: initial value of the accumulator]")
+        head = g.node_of(loop)
+        keyp = _table_key(p, folds[0].call)
         dynamic = any("attr:binary_operator" in x for x in keyp)
-        inits = []
-        for n in g.nodes():
-            st = g.stmt[n]
-            if isinstance(st, ast.Assign) and any(isinstance(t, ast.Name) and t.id == acc for t in st.targets) and g.loop_of.get(n) is None:
-                inits.append(st)
+        inits = [g.stmt[d] for d in p.rd.defs_reaching(head, acc) if d != g.entry and not any(g.stmt[d] is x for x in ast.walk(loop))]
+        inits = [st for st in inits if isinstance(st, (ast.Assign, ast.AnnAssign)) and st.value is not None]
         if not inits:
-            raise AnalysisError(f"{spec}: initialisation of the accumulator not found")
-        init = inits[0]
-        tr = p.trace(init.value)
-        depends_on_op = any("attr:binary_operator" in x for x in tr) or any(
-            isinstance(c, ast.Compare) and "binary_operator" in ast.unparse(c) for c in ast.walk(init.value))
+            raise AnalysisError(f"{EVAL}: initialisation of the accumulator of the {ctx} evaluation loop not found")
+        depends = True
+        for init in inits:
+            tr = p.trace(init.value)
+            d = any("attr:binary_operator" in x for x in tr) or any(
+                isinstance(c, ast.Compare) and any("attr:binary_operator" in x for sub in (c.left, *c.comparators) for x in _safe_trace(p, sub)) for c in ast.walk(init.value))
+            # the initial value may itself be assigned under a test on the operator
+            d = d or any(isinstance(a, ast.If) and any("attr:binary_operator" in x for sub in ast.walk(a.test) if isinstance(sub, ast.Attribute) for x in _safe_trace(p, sub))
+                         for a in _anc(L.parents_of(f), init))
+            depends = depends and d
         if not dynamic:
-            r.ok({"function": f.qn, "operator": "fixed"})
-        elif depends_on_op:
-            r.ok({"function": f.qn, "initial_value": unparse(init.value), "depends_on_operator": True})
+            r.ok({"context": ctx, "operator": "fixed"})
+        elif depends:
+            r.ok({"context": ctx, "initial_value": unparse(inits[0].value), "depends_on_operator": True})
         else:
-            r.fail(Finding("C02.foldid", f, "fold-init:or", f"the accumulator starts from {unparse(init.value, 60)} whatever the operator is: for 'or' the "
-                           f"start value must be False, here a disjunction is true as soon as the (in)equalities hold", node=init, latent=latent))
+            r.fail(Finding("C02.foldid", f, f"fold-init:or:{ctx}", f"the accumulator of the {ctx} evaluation starts from {unparse(inits[0].value, 60)} whatever the operator is: "
+                           f"for 'or' the start value must be False, here a disjunction is true as soon as the (in)equalities hold", node=inits[0],
+                           latent=(ctx == "forall" and dead_forall)))
     r.require_sites(2)
     return r
 
 
+def _safe_trace(p, e):
+    try:
+        return p.trace(e)
+    except KeyError:
+        return set()
+
+
+def _forall_dead(repo: Repo, f: FuncInfo, p, loops) -> bool:
+    """is the forall evaluation unreachable from the compound dispatch (shadowed by a superclass test)?"""
+    g = C.cfg_of(f.node)
+    comp = [lp for lp, _a, _f, ctx in loops if ctx == "compound"]
+    fa = [lp for lp, _a, _f, ctx in loops if ctx == "forall"]
+    if not comp or not fa:
+        return False
+    D = ClassDispatch(repo, f, p, comp[0])
+    head = g.node_of(fa[0])
+    return not any(head in D.G.reach(D.valuation(k)) for k in EVAL_CLASSES)
+
+
+def universal_path_dead(repo: Repo) -> bool:
+    f, p, loops = _evaluator(repo)
+    return _forall_dead(repo, f, p, loops)
+
+
 def rule_foldarms(repo: Repo) -> RuleResult:
-    r = RuleResult("C02.foldarms", "every evaluator arm folds its operand's value into the accumulator with the current node's operator",
+    r = RuleResult("C02.foldarms", "for every operand class the evaluator folds the operand's value into the accumulator with the current node's operator",
                    "and / or compositionally over all operands")
-    f = repo.func("GroundedPrecondition._is_condition_applicable")
-    p = L.prov(repo, f)
-    loops = [n for n in ast.walk(f.node) if isinstance(n, ast.For) and isinstance(n.target, ast.Name) and any("attr:operands" in x for x in p.trace(n.iter))]
-    if len(loops) != 1:
-        raise AnalysisError("_is_condition_applicable: operand loop not found")
-    loop = loops[0]
-    var = loop.target.id
-    arms, else_arm = isinstance_arms(loop.body, var)
-    folds = {id(n): acc for n, acc in _fold_sites(repo, f)}
-    accs = set(folds.values())
-    for arm in arms:
-        r.site(f"{f.qn} [arm {'/'.join(arm.classes)}]")
-        dead = shadowed(repo, arms, arm)
-        assigns = [s for s in C.stmts_in(arm.body) if isinstance(s, ast.Assign) and any(isinstance(t, ast.Name) and t.id in accs for t in s.targets)]
+    f, p, loops = _evaluator(repo)
+    g = C.cfg_of(f.node)
+    loop, acc, folds, _ctx = [x for x in loops if x[3] == "compound"][0]
+    D = ClassDispatch(repo, f, p, loop)
+    if not D.tests:
+        raise AnalysisError(f"{EVAL}: isinstance dispatch of the evaluator not recognised")
+    fold_ids = {id(x.stmt) for x in folds}
+    node_src = {x[:-1] for x in p.trace(loop.iter) if x[-1] == "attr:operands"}
+    elem = {x + ("elem",) for x in p.trace(loop.iter)}
+    pm = L.parents_of(f)
+    ops = _operand_loops(f, p)
+
+    def nearest_is_loop(n) -> bool:
+        for a in _anc(pm, n):
+            if a in ops:
+                return a is loop
+        return False
+
+    for cls in EVAL_CLASSES:
+        r.site(f"{f.qn} [operand class {cls}]")
+        seen = D.reach(cls)
+        assigns = [g.stmt[n] for n in seen if isinstance(g.stmt[n], ast.Assign) and any(isinstance(t, ast.Name) and t.id == acc for t in g.stmt[n].targets)
+                   and nearest_is_loop(g.stmt[n])]
+        raises = any(g.kind[n] == "raise" for n in seen)
         if not assigns:
-            r.fail(Finding("C02.foldarms", f, f"arm-no-fold:{'/'.join(arm.classes)}", f"the arm for {'/'.join(arm.classes)} does not update the accumulator", node=arm.node, latent=dead))
-            continue
-        bad = [s for s in assigns if id(s) not in folds]
-        key_ok = all(any(x == ("param:preconditions", "attr:binary_operator") for x in p.trace(s.value.func.slice)) for s in assigns if id(s) in folds)
-        if bad:
-            r.fail(Finding("C02.foldarms", f, f"arm-overwrites:{'/'.join(arm.classes)}", f"the arm for {'/'.join(arm.classes)} overwrites the accumulator "
-                           f"({unparse(bad[0], 70)}) instead of folding: the value of earlier operands is lost", node=bad[0], latent=dead))
-        elif not key_ok:
-            r.fail(Finding("C02.foldarms", f, f"arm-operator:{'/'.join(arm.classes)}", "the fold does not use the current node's operator", node=assigns[0], latent=dead))
-        else:
-            # the folded value derives from the operand
-            s = assigns[0]
-            v = p.trace(s.value.args[1])
-            if any("elem" in x for x in v):
-                r.ok({"arm": "/".join(arm.classes), "folds": unparse(s.value.args[1], 60)})
+            if raises and not D.matches_any(cls):
+                r.ok({"class": cls, "rejected": True})
             else:
-                r.fail(Finding("C02.foldarms", f, f"arm-value:{'/'.join(arm.classes)}", "the folded value does not derive from the operand", node=s, latent=dead))
+                r.fail(Finding("C02.foldarms", f, f"arm-no-fold:{cls}", f"an operand of class {cls} does not update the accumulator", node=loop))
+            continue
+        bad = [s_ for s_ in assigns if id(s_) not in fold_ids]
+        key_ok = all(all(x[-1] == "attr:binary_operator" and x[:-1] in node_src for x in _table_key(p, s_.value)) and _table_key(p, s_.value)
+                     for s_ in assigns if id(s_) in fold_ids)
+        if bad:
+            r.fail(Finding("C02.foldarms", f, f"arm-overwrites:{cls}", f"for an operand of class {cls} the accumulator is overwritten "
+                           f"({unparse(bad[0], 70)}) instead of folded: the value of earlier operands is lost", node=bad[0]))
+        elif not key_ok:
+            r.fail(Finding("C02.foldarms", f, f"arm-operator:{cls}", "the fold does not use the current node's operator", node=assigns[0]))
+        else:
+            s_ = assigns[0]
+            v = p.trace(s_.value.args[1])
+            if any(any(x[:len(e)] == e for e in elem) for x in v):
+                r.ok({"class": cls, "folds": unparse(s_.value.args[1], 60)})
+            else:
+                r.fail(Finding("C02.foldarms", f, f"arm-value:{cls}", "the folded value does not derive from the operand", node=s_))
     r.site(f"{f.qn} [else]")
-    if else_arm is not None and any(isinstance(s, ast.Raise) for s in C.stmts_in(else_arm.body)):
+    # an element of a class that no test accepts must be rejected
+    none = {a: False for a in D.valuation("object")}
+    seen = D.G.reach(none) & D.inside
+    if any(g.kind[n] == "raise" for n in seen):
         r.ok({"else": "raise"})
     else:
         r.fail(Finding("C02.foldarms", f, "else-not-rejecting", "an operand of an unknown class is skipped silently by the evaluator"))
     # result is the accumulator
     r.site(f"{f.qn} [result]")
     rets = L.func_returns(f)
-    if rets and all(isinstance(x.value, ast.Name) and x.value.id in accs for x in rets):
-        r.ok({"returns": sorted(accs)})
+    if rets and all(x.value is not None and _resolves_to(p, g, x.value, acc) for x in rets):
+        r.ok({"returns": acc})
     else:
         r.fail(Finding("C02.foldarms", f, "result", "the evaluator does not return the accumulator"))
     r.require_sites(5)
     return r
 
 
+def _pair_compare(p, e: ast.AST):
+    """('eq'|'ne', field) when e compares the two components of an element of <x>.equality_preconditions / inequality_preconditions"""
+    neg = False
+    while isinstance(e, ast.UnaryOp) and isinstance(e.op, ast.Not):
+        e, neg = e.operand, not neg
+    if not (isinstance(e, ast.Compare) and len(e.ops) == 1 and isinstance(e.ops[0], (ast.Eq, ast.NotEq))):
+        return None
+    a, b = _safe_trace(p, e.left), _safe_trace(p, e.comparators[0])
+    for fld in ("inequality_preconditions", "equality_preconditions"):
+        fa = [x for x in a if f"attr:{fld}" in x and x[-2:] in (("elem", "unpack:0"), ("elem", "unpack:1"))]
+        fb = [x for x in b if f"attr:{fld}" in x and x[-2:] in (("elem", "unpack:0"), ("elem", "unpack:1"))]
+        if fa and fb and len(fa) == len(a) and len(fb) == len(b) and {x[-1] for x in fa} != {x[-1] for x in fb}:
+            eq = isinstance(e.ops[0], ast.Eq) != neg
+            return ("eq" if eq else "ne", fld)
+    return None
+
+
 def rule_equality(repo: Repo) -> RuleResult:
     r = RuleResult("C02.equality", "all equality pairs compared with ==, all inequality pairs with !=, conjoined", "(in)equality by object identity")
-    f = repo.func("GroundedPrecondition._validate_equality_holds")
-    r.site(f.qn)
-    rets = L.func_returns(f)
-    if len(rets) != 1:
-        raise AnalysisError("_validate_equality_holds: single return expected")
-    e = rets[0].value
-    parts = e.values if isinstance(e, ast.BoolOp) and isinstance(e.op, ast.And) else None
-    found = {}
-    if parts:
-        for part in parts:
-            if isinstance(part, ast.Call) and callee_name(part) == "all" and part.args:
-                comp = part.args[0]
-                if isinstance(comp, (ast.ListComp, ast.GeneratorExp, ast.SetComp)) and len(comp.generators) == 1 and not comp.generators[0].ifs:
-                    it = ast.unparse(comp.generators[0].iter)
-                    tg = comp.generators[0].target
-                    elt = comp.elt
-                    if isinstance(elt, ast.Compare) and len(elt.ops) == 1 and isinstance(tg, ast.Tuple) and len(tg.elts) == 2:
-                        names = {x.id for x in tg.elts if isinstance(x, ast.Name)}
-                        used = {x.id for x in (elt.left, elt.comparators[0]) if isinstance(x, ast.Name)}
-                        if names == used and len(names) == 2:
-                            which = "ineq" if "inequality_preconditions" in it else ("eq" if "equality_preconditions" in it else None)
-                            if which:
-                                found[which] = type(elt.ops[0]).__name__
-    if found == {"eq": "Eq", "ineq": "NotEq"}:
-        r.ok({"equalities": "all(a == b)", "inequalities": "all(a != b)", "combined_by": "and"})
+    f, p, loops = _evaluator(repo)
+    g = C.cfg_of(f.node)
+    r.site(f.qn + " [pair tests]")
+    atoms: Dict[int, str] = {}
+    wrong = []
+    for c in L.calls_in(f.node):
+        if callee_name(c) in ("all", "any") and len(c.args) == 1 and isinstance(c.args[0], (ast.ListComp, ast.GeneratorExp, ast.SetComp)):
+            comp = c.args[0]
+            pc = _pair_compare(p, comp.elt)
+            if pc is None:
+                continue
+            kind, fld = pc
+            want = "eq" if fld == "equality_preconditions" else "ne"
+            atom = "E" if fld == "equality_preconditions" else "I"
+            if any(g_.ifs for g_ in comp.generators):
+                wrong.append((c, callee_name(c), kind, fld))
+            elif callee_name(c) == "all" and kind == want:
+                atoms[id(c)] = atom
+            elif callee_name(c) == "any" and kind != want:
+                atoms[id(c)] = "!" + atom            # some pair violates the constraint
+            else:
+                wrong.append((c, callee_name(c), kind, fld))
+    found = {a.lstrip("!") for a in atoms.values()}
+    if not wrong and not found:
+        raise AnalysisError(f"{EVAL}: the tests of the (in)equality pairs (all / any over equality_preconditions, inequality_preconditions) were not recognised")
+    if wrong or found != {"E", "I"}:
+        r.fail(Finding("C02.equality", f, "equality-semantics", f"(in)equality evaluation is not all(==) over the equalities and all(!=) over the inequalities: "
+                       f"recognised {sorted(found)}, other tests {[(w[1], w[2], w[3]) for w in wrong][:2]}", node=wrong[0][0] if wrong else None))
     else:
-        r.fail(Finding("C02.equality", f, "equality-semantics", f"(in)equality evaluation is not all(==) and all(!=): recognised {found}"))
+        r.ok({"equalities": "all(a == b)", "inequalities": "all(a != b)"})
+    # the accumulator of the compound evaluation starts from (E and I)
+    r.site(f.qn + " [conjoined]")
+    loop, acc, folds, _ctx = [x for x in loops if x[3] == "compound"][0]
+    head = g.node_of(loop)
+    inits = [g.stmt[d] for d in p.rd.defs_reaching(head, acc) if d != g.entry and not any(g.stmt[d] is x for x in ast.walk(loop))]
+    G = L.Guards(f, lambda e: atoms.get(id(e)))
+    bad = []
+    if found == {"E", "I"} and not wrong:
+        for E, I in itertools.product([False, True], repeat=2):
+            seen = G.reach({"E": E, "I": I})
+            vals = set()
+            for st in inits:
+                if g.node_of(st) in seen and isinstance(st, (ast.Assign, ast.AnnAssign)) and st.value is not None:
+                    vals.add(_as_bool(G.value({"E": E, "I": I}, st.value, seen)))
+            if vals != {E and I}:
+                bad.append((E, I, sorted(map(str, vals))))
+        if bad:
+            r.fail(Finding("C02.equality", f, "equality-semantics", f"the evaluation does not start from (all equalities hold) and (all inequalities hold): "
+                           f"(E, I, start value) = {bad[:2]}"))
+        else:
+            r.ok({"combined_by": "and", "start_value_of_the_fold": "E and I"})
     # grounding of the pairs maps both components
-    g = repo.func("GroundedPrecondition._ground_equality_objects")
-    r.site(g.qn)
-    ok = False
-    for n in ast.walk(g.node):
-        if isinstance(n, (ast.SetComp, ast.ListComp)) and isinstance(n.elt, ast.Tuple) and len(n.elt.elts) == 2:
-            tg = n.generators[0].target
-            if isinstance(tg, ast.Tuple) and len(tg.elts) == 2:
-                a, b = [x.id for x in tg.elts]
-                e0, e1 = n.elt.elts
-                ok = (isinstance(e0, ast.Subscript) and isinstance(e0.slice, ast.Name) and e0.slice.id == a and
-                      isinstance(e1, ast.Subscript) and isinstance(e1.slice, ast.Name) and e1.slice.id == b and
-                      ast.unparse(e0.value) == ast.unparse(e1.value) == "parameters_map")
-    if ok:
+    k = L.fn(repo, GROUND)
+    pk = L.prov(repo, k)
+    r.site(k.qn + " [pair grounding]")
+    okf = {}
+    for n in ast.walk(k.node):
+        if isinstance(n, ast.Tuple) and len(n.elts) == 2 and isinstance(n.ctx, ast.Load):
+            try:
+                t0, t1 = [pk.trace(x, keys=True) for x in n.elts]
+            except KeyError:
+                continue
+            for fld in ("equality_preconditions", "inequality_preconditions"):
+                via0 = any(x[0] == "param:parameters_map" and "item" in x and "askey" not in x for x in t0)
+                via1 = any(x[0] == "param:parameters_map" and "item" in x and "askey" not in x for x in t1)
+                k0 = {x[-2] for x in t0 if "askey" in x and f"attr:{fld}" in x and len(x) > 2 and x[-1] == "askey" and x[-2].startswith("unpack:")}
+                k1 = {x[-2] for x in t1 if "askey" in x and f"attr:{fld}" in x and len(x) > 2 and x[-1] == "askey" and x[-2].startswith("unpack:")}
+                if via0 and via1 and k0 == {"unpack:0"} and k1 == {"unpack:1"}:
+                    okf[fld] = True
+    if okf.get("equality_preconditions") and okf.get("inequality_preconditions"):
         r.ok({"grounding": "(map[a], map[b]) for (a, b) in pairs"})
     else:
-        r.fail(Finding("C02.equality", g, "pair-grounding", "(in)equality pairs are not grounded component-wise in order"))
-    r.require_sites(2)
+        r.fail(Finding("C02.equality", k, "pair-grounding", f"(in)equality pairs are not grounded component-wise in order (recognised for {sorted(okf)})"))
+    r.require_sites(3)
     return r
+
+
+def _as_bool(v):
+    return v if isinstance(v, bool) else None
 
 
 def rule_passthrough(repo: Repo) -> RuleResult:
     r = RuleResult("C02.passthrough", "Operator.is_applicable grounds first and returns the grounded precondition's answer for (state, problem objects)",
                    "applicable exactly when the instantiated precondition is true")
-    f = repo.func("Operator.is_applicable")
+    f = L.fn(repo, "Operator.is_applicable")
     p = L.prov(repo, f)
     g = C.cfg_of(f.node)
     r.site(f.qn + " [result]")
@@ -465,23 +697,23 @@ def rule_passthrough(repo: Repo) -> RuleResult:
         r.ok({"ungrounded_operator": "ground() precedes the answer"})
     else:
         r.fail(Finding("C02.passthrough", f, "ground-first", "an operator that is not grounded yet can answer without grounding"))
-    h = repo.func("GroundedPrecondition.is_applicable")
-    ph = L.prov(repo, h)
+    h, ph, loops = _evaluator(repo)
     r.site(h.qn)
-    ok = False
-    for ret in L.func_returns(h):
-        v = ret.value
-        if isinstance(v, ast.Call) and callee_name(v) == "_is_condition_applicable" and len(v.args) >= 2:
-            t0, t1 = ph.trace(v.args[0]), ph.trace(v.args[1])
-            t2 = ph.trace(v.args[2]) if len(v.args) > 2 else set()
-            ok = any(x == ("self", "attr:_grounded_precondition", "attr:root") for x in t0) and all(x == ("param:state",) for x in t1) and \
-                all(x == ("param:problem_objects",) for x in t2) and bool(t2)
-    if ok:
-        r.ok({"returns": "_is_condition_applicable(grounded root, state, problem_objects)"})
+    comp = [lp for lp, _a, _f, ctx in loops if ctx == "compound"]
+    fa_obj = [n for n in ast.walk(h.node) if isinstance(n, ast.For) and any(x[0] == "param:problem_objects" for x in ph.trace(n.iter))]
+    root_ok = bool(comp) and all(x == ("self", "attr:_grounded_precondition", "attr:root", "attr:operands") for x in ph.trace(comp[0].iter))
+    states = [c for c in L.calls_in(h.node) if callee_name(c) in ("serialize", "set_expression_value")]
+    state_ok = bool(states) and all(any(x[0] == "param:state" for x in ph.trace(c.func.value if callee_name(c) == "serialize" else c.args[1])) for c in states
+                                    if callee_name(c) == "serialize" or len(c.args) > 1)
+    if not states:
+        raise AnalysisError(f"{EVAL}: no evaluation against the state (serialize / set_expression_value) is visible")
+    if root_ok and state_ok and fa_obj:
+        r.ok({"evaluates": "the grounded root on (state, problem_objects)"})
     else:
-        r.fail(Finding("C02.passthrough", h, "result", "GroundedPrecondition.is_applicable does not evaluate its grounded root on (state, problem_objects)"))
+        r.fail(Finding("C02.passthrough", h, "result", f"GroundedPrecondition.is_applicable does not evaluate its grounded root on (state, problem_objects) "
+                       f"(root={root_ok}, state={state_ok}, objects={bool(fa_obj)})"))
     # ground(): parameter map = zip(signature, call objects); preconditions grounded from the action's preconditions
-    k = repo.func("Operator.ground")
+    k = L.fn(repo, "Operator.ground")
     pk = L.prov(repo, k)
     r.site(k.qn)
     gp_ctor = [c for c in L.calls_in(k.node) if callee_name(c) == "GroundedPrecondition"]
@@ -502,7 +734,7 @@ def rule_passthrough(repo: Repo) -> RuleResult:
 def rule_groundall(repo: Repo) -> RuleResult:
     r = RuleResult("C02.groundall", "ground_preconditions grounds the equality pairs, the inequality pairs and the operands on every path",
                    "(in)equality by object identity is part of every instantiated precondition")
-    f = repo.func("GroundedPrecondition.ground_preconditions")
+    f = L.fn(repo, GROUND)
     g = C.cfg_of(f.node)
     p = L.prov(repo, f)
     dom = C.dominators(g)
@@ -513,14 +745,14 @@ def rule_groundall(repo: Repo) -> RuleResult:
         for n in g.nodes():
             st = g.stmt[n]
             if isinstance(st, ast.Assign) and any(isinstance(t, ast.Attribute) and t.attr == fld and
-                                                  any(x[:2] == ("self", "attr:_grounded_precondition") for x in p.trace(t.value)) for t in st.targets):
-                tr = p.trace(st.value)
-                if any(x[:2] == ("self", "attr:_lifted_precondition") and f"attr:{fld}" in x and any(s.endswith("_ground_equality_objects") for s in x) for x in tr) and \
+                                                  any(x[:3] == ("self", "attr:_grounded_precondition", "attr:root") for x in p.trace(t.value)) for t in st.targets):
+                tr = p.trace(st.value, keys=True)
+                if any(x[:3] == ("self", "attr:_lifted_precondition", "attr:root") and f"attr:{fld}" in x for x in tr) and \
                         any(x[0] == "param:parameters_map" for x in tr):
                     nodes.append(n)
         need[fld] = nodes
-    gn = [g.node_containing(c) for c in L.calls_in(f.node) if callee_name(c) == "_ground"]
-    need["operands (_ground)"] = [n for n in gn if n is not None]
+    loops = [lp for lp in _operand_loops(f, p) if all(x == ("self", "attr:_lifted_precondition", "attr:root", "attr:operands") for x in p.trace(lp.iter))]
+    need["operands (_ground)"] = [g.node_of(lp) for lp in loops]
     for what, nodes in need.items():
         r.site(f"{f.qn} [{what}]")
         if nodes and exits and all(dom[e] & set(nodes) for e in exits):
@@ -530,32 +762,34 @@ def rule_groundall(repo: Repo) -> RuleResult:
         else:
             r.fail(Finding("C02.groundall", f, f"path-skips:{what}", f"a path through ground_preconditions ends without grounding the {what} "
                            f"(e.g. an early return): constraints such as (not (= ?x ?y)) are then vacuously true"))
-    # _ground call wiring
+    # wiring of the translation: operands of the lifted root are attached to the grounded root, with the given parameter map
     r.site(f"{f.qn} [_ground arguments]")
     ok = False
-    for c in L.calls_in(f.node):
-        if callee_name(c) == "_ground":
-            gf = repo.func("GroundedPrecondition._ground")
-            a, b, m = (L.arg_of(c, gf, k) for k in ("lifted_conditions", "grounded_conditions", "parameters_map"))
-            ok = a is not None and b is not None and m is not None and \
-                any(x == ("self", "attr:_lifted_precondition", "attr:root") for x in p.trace(a)) and \
-                any(x == ("self", "attr:_grounded_precondition", "attr:root") for x in p.trace(b)) and \
-                all(x == ("param:parameters_map",) for x in p.trace(m))
+    for lp in loops:
+        adds = [c for c in L.calls_in(lp) if callee_name(c) == "add_condition" and isinstance(c.func, ast.Attribute)]
+        to_root = any(all(x == ("self", "attr:_grounded_precondition", "attr:root") for x in p.trace(c.func.value)) and p.trace(c.func.value) for c in adds)
+        gcalls = [c for c in L.calls_in(lp) if callee_name(c) in ("ground_predicate", "ground_numeric_calculation_tree") and len(c.args) > 1]
+        with_map = bool(gcalls) and all(all(x == ("param:parameters_map",) for x in p.trace(c.args[1])) for c in gcalls)
+        ok = ok or (to_root and with_map)
     if ok:
         r.ok({"_ground": "(lifted root, grounded root, parameters_map)"})
     else:
-        r.fail(Finding("C02.groundall", f, "ground-arguments", "_ground is not called with (lifted root, grounded root, parameters_map)"))
+        r.fail(Finding("C02.groundall", f, "ground-arguments", "the operands of the lifted root are not translated into the grounded root with the given parameter map"))
     r.require_sites(4)
     return r
 
 
 def rule_keyerror(repo: Repo) -> RuleResult:
     r = RuleResult("C02.keyerror", "a failure while evaluating a numeric condition yields False, never True", "an evaluation failure must not make a condition true")
-    f = repo.func("GroundedPrecondition._validate_numeric_expression_hold")
+    f = L.fn(repo, EVAL)
     r.site(f.qn)
     bad = []
+    handlers = 0
     for n in ast.walk(f.node):
-        if isinstance(n, ast.ExceptHandler):
+        if isinstance(n, ast.Try) and not any(callee_name(c) in ("evaluate_expression", "set_expression_value") for st in n.body for c in L.calls_in(st)):
+            continue
+        for n in (n.handlers if isinstance(n, ast.Try) else []):
+            handlers += 1
             for s in C.stmts_in(n.body):
                 if isinstance(s, ast.Assign) and isinstance(s.value, ast.Constant) and s.value.value is not False:
                     bad.append(s)
@@ -563,15 +797,20 @@ def rule_keyerror(repo: Repo) -> RuleResult:
                     bad.append(s)
     if bad:
         r.fail(Finding("C02.keyerror", f, "handler-true", f"the exception handler yields {unparse(bad[0])}", node=bad[0]))
+    elif not handlers and not any(callee_name(c) in ("evaluate_expression", "set_expression_value") for c in L.calls_in(f.node)):
+        raise AnalysisError(f"{EVAL}: the evaluation of numeric conditions (evaluate_expression) is not visible")
+    elif not handlers:
+        r.fail(Finding("C02.keyerror", f, "handler-missing", "a fluent that is missing from the state is not handled while a numeric condition is evaluated"))
     else:
         r.ok({"handler": "False"})
     # the comparison is evaluated on the state's fluents
     p = L.prov(repo, f)
     r.site(f.qn + " [environment]")
     sv = [c for c in L.calls_in(f.node) if callee_name(c) == "set_expression_value"]
-    ok = any(any(x == ("param:state", "attr:state_fluents") for x in p.trace(c.args[1])) and any(x == ("param:condition", "attr:root") for x in p.trace(c.args[0])) for c in sv if len(c.args) > 1)
+    is_root = lambda tr: any(len(x) >= 3 and x[-1] == "attr:root" and x[-2] == "elem" and x[-3] == "attr:operands" for x in tr)
+    ok = any(any(x == ("param:state", "attr:state_fluents") for x in p.trace(c.args[1])) and is_root(p.trace(c.args[0])) for c in sv if len(c.args) > 1)
     ev = [c for c in L.calls_in(f.node) if callee_name(c) == "evaluate_expression"]
-    ok = ok and any(any(x == ("param:condition", "attr:root") for x in p.trace(c.args[0])) for c in ev if c.args)
+    ok = ok and any(is_root(p.trace(c.args[0])) for c in ev if c.args)
     if ok:
         r.ok({"evaluated_on": "state.state_fluents"})
     else:
@@ -583,5 +822,5 @@ def rule_keyerror(repo: Repo) -> RuleResult:
 def rules(repo: Repo, tier: str) -> List[RuleResult]:
     return [rule_tables(repo), c12.rule_compare(repo), rule_translate(repo), rule_literal(repo), rule_foldid(repo), rule_foldarms(repo),
             rule_equality(repo), c06.rule_range(repo, "C02.range", "GroundedPrecondition.is_applicable"),
-            c06.rule_conform(repo, "C02.conform", only_funcs=("GroundedPrecondition._validate_universal_precondition",), floor=0),
+            c06.rule_conform(repo, "C02.conform", only_funcs=(EVAL,), floor=0),
             rule_passthrough(repo), rule_groundall(repo), rule_keyerror(repo)]
